@@ -138,6 +138,15 @@ impl Environment {
         self.find(v).map(|k| k.get_type())
     }
 
+    /// The type of the unit `v`. Function parameters and local variables may shadow the
+    /// name of a unit, but a unit identifier (e.g. the `m` in `km`) always refers to the unit.
+    pub(crate) fn get_unit_type(&self, v: &str) -> Option<TypeScheme> {
+        self.identifiers.get_all(v).find_map(|kind| match kind {
+            IdentifierKind::Normal(t, _, true) => Some(t.clone()),
+            _ => None,
+        })
+    }
+
     pub(crate) fn iter_identifiers(&self) -> impl Iterator<Item = &Identifier> {
         self.identifiers.keys()
     }
